@@ -54,6 +54,7 @@ Definition ev_ok (g : ghost) (e : event) : Prop :=
   | EPayload o _ => In o (g_auth g)
   | EForeign ys => incl ys (g_auth g)
   | ECls _ => Vinegar.hooks_run (c_cls_mode C) (c_rflags C) = true
+  | EGlobalRead _ => c_cls_reads C = true
   | _ => True
   end.
 Fixpoint wf (t : list event) : Prop :=
@@ -246,15 +247,18 @@ Qed.
 Lemma spec_class_walk (pre : state -> Prop) name : spec pre (class_walk S C name) (fun _ _ => True).
 Proof.
   intros s s' r I P E. unfold class_walk, emit_all in E. injection E as <- <-.
-  assert (H : class_imports S C name = [] \/ Vinegar.hooks_run (c_cls_mode C) (c_rflags C) = true).
-  { destruct (class_imports S C name) eqn:X; [now left|right]. apply (class_imports_hooks name). rewrite X. discriminate. }
-  assert (K : forall l s0, Inv s0 -> (l = [] \/ Vinegar.hooks_run (c_cls_mode C) (c_rflags C) = true) ->
-              Inv (fold_left add_ev (map ECls l) s0) /\ ext s0 (fold_left add_ev (map ECls l) s0)).
-  { induction l as [|m l IHl]; intros s0 I0 Hl; cbn; [split; [exact I0|apply ext_refl]|].
-    destruct Hl as [Hl|Hl]; [discriminate|].
-    assert (I1 : Inv (add_ev s0 (ECls m))) by (apply inv_add; [exact I0|exact Hl|cbn; apply I0]).
-    destruct (IHl _ I1 (or_intror Hl)) as [I2 X2]. split; [exact I2|]. eapply ext_trans; [|exact X2]. apply auth_add. discriminate. }
-  destruct (K _ s I H) as [I' X']. split; [exact I'|split; [exact X'|auto]].
+  assert (K : forall l s0, Inv s0 -> (forall e, In e l -> e <> EMsg /\ tbl_neutral e /\ forall g, ev_ok g e) ->
+              Inv (fold_left add_ev l s0) /\ ext s0 (fold_left add_ev l s0)).
+  { induction l as [|e l IHl]; intros s0 I0 Hl; cbn; [split; [exact I0|apply ext_refl]|].
+    destruct (Hl e (or_introl eq_refl)) as (Hne & Hn & Hok).
+    assert (I1 : Inv (add_ev s0 e)) by (apply inv_add; [exact I0|apply Hok|rewrite gstep_neutral by exact Hn; apply I0]).
+    destruct (IHl _ I1 (fun e' H => Hl e' (or_intror H))) as [I2 X2]. split; [exact I2|]. eapply ext_trans; [|exact X2]. now apply auth_add. }
+  destruct (K (map ECls (class_imports S C name) ++ class_global S C name) s I) as [I' X']; [|split; [exact I'|split; [exact X'|auto]]].
+  intros e He. apply in_app_or in He as [He|He].
+  - apply in_map_iff in He as (m & <- & Hm). split; [discriminate|split; [exact Logic.I|]]. intros g. cbn.
+    apply (class_imports_hooks name). intros X. rewrite X in Hm. contradiction.
+  - unfold class_global in He. destruct (c_cls_reads C) eqn:Hr; [|contradiction]. destruct (assoc_txt name (s_globals S)); [|contradiction].
+    destruct He as [<-|[]]. split; [discriminate|split; [exact Logic.I|]]. intros g. exact Hr.
 Qed.
 Lemma spec_raise_loaded {A} (pre : state -> Prop) payload (post : state -> A -> Prop) : spec pre (raise_loaded S C payload) post.
 Proof.
@@ -1133,7 +1137,7 @@ Notation M := (@Hostile.M W).
 Definition touching (e : event) : bool :=
   match e with
   | ETouch _ _ _ | EAttr _ _ _ _ | EHook _ _ _ _ | EEnv => true
-  | EProbe _ _ | EDisconnect | EPayload _ _ | ECtx _ _ => true       (* hasattr probes, on_disconnect, repr()/dir() of exception payloads run service code too *)
+  | EProbe _ _ | EDisconnect | EPayload _ _ | ECtx _ _ | EGlobalRead _ => true       (* hasattr probes, on_disconnect, repr()/dir() of exception payloads run service code too *)
   | _ => false
   end.
 Definition nt (t : list event) : nat := List.length (filter touching t).
@@ -1202,9 +1206,7 @@ Lemma q_note_class k : qspec (@note_class W k). Proof. intros s s' r [= <- <-]. 
 Lemma q_class_walk n : qspec (class_walk S C n).
 Proof.
   intros s s' r E. unfold class_walk, emit_all in E. injection E as <- <-.
-  assert (K : forall l (s0 : state), nt (tr (fold_left add_ev (map ECls l) s0)) = nt (tr s0) /\ wst (fold_left add_ev (map ECls l) s0) = wst s0).
-  { induction l as [|m l IHl]; intros s0; cbn; [auto|]. destruct (IHl (add_ev s0 (ECls m))) as [A B]. rewrite A, B. auto. }
-  destruct (K (class_imports S C n) s) as [A B]. split; [lia|auto].
+  exact (q_fold_any (fun e => e) (map ECls (class_imports S C n) ++ class_global S C n) s).
 Qed.
 Lemma q_raise_loaded {A} payload : qspec (@raise_loaded W S C A payload).
 Proof.
@@ -1607,6 +1609,10 @@ Proof. intros E. pose proof (trace_event_ok _ _ _ _ _ E) as [_ H]. now apply H. 
 Theorem class_hook_needs_getattr w l t1 m t2 : tr (RUN w l) = t1 ++ ECls m :: t2 ->
   Vinegar.hooks_run (c_cls_mode C) (c_rflags C) = true.
 Proof. intros E. exact (trace_event_ok _ _ _ _ _ E). Qed.
+(* 3''. class_factory reads attributes of a module global a peer names (an object that was never lent) only in the form that tests the
+        object itself (generated fact c_cls_reads); a test on type(found) alone reads nothing of it *)
+Theorem class_global_read_needs_form w l t1 o t2 : tr (RUN w l) = t1 ++ EGlobalRead o :: t2 -> c_cls_reads C = true.
+Proof. intros E. exact (trace_event_ok _ _ _ _ _ E). Qed.
 (* 4. what an exception record can make vinegar.load do (an import needs import_custom, or -- through a module-level
       __getattr__ consulted by the class lookup, see props/C09.v 3a/3b -- instantiate_custom) *)
 Theorem vinegar_effects w l t1 v t2 : tr (RUN w l) = t1 ++ EVin v :: t2 ->
@@ -1647,23 +1653,23 @@ Lemma unbox_first_miss {W} (S : sem W) C f key rest (s : hst W) : tbl_find key (
 Proof.
   intros F. cbn [unbox]. unfold mbind, lift, in_genexpr, resolve. cbn. now rewrite F.
 Qed.
-Theorem forged_reference_refused {W} (S : sem W) HT DT (s : hst W) seq h key rest answers :
+Theorem forged_reference_refused {W} (S : sem W) C HT DT (s : hst W) seq h key rest answers :
   lost s = false -> closed s = false -> tbl_find key (tbl s) = None ->
   let msg := PTuple [PInt 1; seq; PTuple [h; PTuple [PInt 2; PTuple (PTuple [PInt 3; key] :: rest)]]] in
-  exists s', handle_msg S default_config HT DT msg_ladder unbox_ladder box_ladder msg answers s = (s', OExc seq (XStd KeyError))
+  exists s', handle_msg S C HT DT msg_ladder unbox_ladder box_ladder msg answers s = (s', OExc seq (XStd KeyError))
     /\ wst s' = wst s /\ tbl s' = tbl s /\ tr s' = EMiss key :: EMsg :: tr s /\ closed s' = false.
 Proof.
   intros Hl Hc F msg. subst msg. unfold handle_msg. rewrite Hl. unfold handle_msg_core. rewrite Hc.
   cbn [Vinegar.unpack iter_elems bind List.length Nat.eqb num_of assoc_z msg_ladder Z.eqb].
   unfold dispatch_request. unfold mbind at 1. cbn [Vinegar.unpack iter_elems bind List.length Nat.eqb lift ret].
   unfold mbind at 1. change FUEL with (Datatypes.S (Datatypes.S 62)).
-  rewrite (unbox_first_miss S default_config 62 key rest (with_ctxs (with_script (add_ev s EMsg) answers) [])) by exact F.
+  rewrite (unbox_first_miss S C 62 key rest (with_ctxs (with_script (add_ev s EMsg) answers) [])) by exact F.
   cbn [closed with_script add_ev with_tr with_ctxs]. rewrite Hc. cbn [propagates].
   eexists. split; [reflexivity|]. cbn. auto.
 Qed.
 
 (* the finite canary world of the harness meets the hypothesis on plain-value operations *)
-Lemma world_sem_val_closed w excs mods : val_closed (world_sem w excs mods).
+Lemma world_sem_val_closed w excs mods globs : val_closed (world_sem w excs mods globs).
 Proof.
   intros op v args. cbn [s_val world_sem]. destruct op; cbn; try apply incl_nil_l.
   destruct v; cbn; try apply incl_nil_l. destruct l; cbn; apply incl_nil_l.
@@ -1732,9 +1738,11 @@ Lemma a_note_class k : aspec (@note_class W k). Proof. apply a_state. now intros
 Lemma a_class_walk n : aspec (class_walk S C n).
 Proof.
   intros s s' r E. unfold class_walk, emit_all in E. injection E as <- <-.
-  assert (K : forall (l : list text) (s0 : state), arel s0 (fold_left add_ev (map ECls l) s0)).
-  { induction l as [|m l IH]; intros s0; cbn; [apply arel_refl|]. eapply arel_trans; [apply (arel_add s0 (ECls m)); exact Logic.I|apply IH]. }
-  apply K.
+  assert (K : forall (l : list event) (s0 : state), (forall e, In e l -> listed e) -> arel s0 (fold_left add_ev l s0)).
+  { induction l as [|e l IH]; intros s0 H; cbn; [apply arel_refl|]. eapply arel_trans; [apply (arel_add s0 e), H; now left|apply IH]. intros e' He'. apply H. now right. }
+  apply K. intros e He. apply in_app_or in He as [He|He].
+  - apply in_map_iff in He as (m & <- & _). exact Logic.I.
+  - unfold class_global in He. destruct (c_cls_reads C); [|contradiction]. destruct (assoc_txt n (s_globals S)); [|contradiction]. destruct He as [<-|[]]. exact Logic.I.
 Qed.
 Lemma a_touch op o args : aspec (touch S op o args).
 Proof. intros s s' r E. unfold touch in E. destruct (s_op S (wst s) op o args). injection E as <- <-. apply (arel_add s (ETouch o op _)). exact Logic.I. Qed.
